@@ -105,3 +105,115 @@ Example C01_example_rules :
   Rules.accepts_document Rules.default_rcfg RulesPart.c01r_example = true /\
   exists es', RulesPart.c01r_doc_norm RulesPart.c01r_example = Some es' /\ events_eqb es' RulesPart.c01r_example = false.
 Proof. exact RulesPart.c01r_example_covered. Qed.
+
+(* ------------------------------------------------------------------ *)
+(* 4. Times.  Model/Cbe.v stops at the three time type codes; the bit-packed layout (cbe/encoder.go
+   OnTime, cbe/decoder_reader.go ReadDate / ReadTime / ReadTimestamp / validateTime over the
+   dependency go-compact-time) is Model/CbeTime.v, tied to the implementation by the cbetime_case
+   family of `vh run C01` (c01_time.go).  A time is the Go struct field by field ([CbeTime.gtime]);
+   [CbeTime.time_ok t]: not the zero value, accepted by validateTime (Time.Validate and the
+   area/location character class), the year inside the window  -2147481648 .. 2147485647  that
+   survives int32(year) - 2000, and a zone the library's constructors build (short and long area name
+   belong together, at most 127 bytes).  [CbeTime.canon t] is t rebuilt by the library's constructors:
+   fields the kind does not use are zero, a date carries the bare Local zone of InitDate, a UTC zone
+   is the library's UTC value whatever alias it was made from (TZAtAreaLocation("Etc/GMT") is written
+   as plain UTC), unused zone fields are zero/empty, a UTC offset of 0 minutes is UTC.  canon t = t for
+   every value made by NewDate / NewTime / NewTimestamp with a zone from TZAtUTC / TZLocal /
+   TZAtAreaLocation (not an alias of UTC) / TZAtLatLong / TZWithMiutesOffsetFromUTC. *)
+From CE Require Model.CbeTime Proofs.CbeTimeProofs.
+
+(* for ALL times in the domain, followed by anything: the decoder returns the time and stops exactly
+   where the encoding ends *)
+Theorem C01_time_roundtrip :
+  forall t rest, CbeTime.time_ok t = true ->
+  CbeTime.cbe_decode_time (CbeTime.cbe_encode_time t ++ rest) = Some (CbeTime.canon t, rest).
+Proof. exact CbeTimeProofs.cbe_time_roundtrip. Qed.
+Print Assumptions C01_time_roundtrip.
+
+Theorem C01_time_consumed_length :
+  forall t rest, CbeTime.time_ok t = true ->
+  CbeTime.decode_obs (CbeTime.cbe_encode_time t ++ rest)
+  = Some (CbeTime.canon t, N.of_nat (length (CbeTime.cbe_encode_time t))).
+Proof. exact CbeTimeProofs.cbe_time_consumed. Qed.
+Print Assumptions C01_time_consumed_length.
+
+(* prefix-freedom: encodings that start the same input encode the same time and end at the same byte *)
+Theorem C01_time_prefix_free :
+  forall t1 t2 r1 r2, CbeTime.time_ok t1 = true -> CbeTime.time_ok t2 = true ->
+  CbeTime.cbe_encode_time t1 ++ r1 = CbeTime.cbe_encode_time t2 ++ r2 ->
+  CbeTime.canon t1 = CbeTime.canon t2 /\ r1 = r2 /\ CbeTime.cbe_encode_time t1 = CbeTime.cbe_encode_time t2.
+Proof. exact CbeTimeProofs.cbe_time_prefix_free. Qed.
+Print Assumptions C01_time_prefix_free.
+
+(* for ANY bytes: what the decoder leaves is a suffix of its input *)
+Theorem C01_time_decoder_leaves_suffix :
+  forall b t r, CbeTime.cbe_decode_time b = Some (t, r) -> exists pre, b = pre ++ r.
+Proof. exact CbeTimeProofs.cbe_decode_time_suffix. Qed.
+Print Assumptions C01_time_decoder_leaves_suffix.
+
+(* the converse, for ANY bytes: a non-zero time the decoder delivers (it passed validateTime) is in
+   the domain above, so writing it and reading it again gives the same time *)
+Theorem C01_time_decoded_is_in_domain :
+  forall b t r, bytes_wf b -> CbeTime.cbe_decode_time b = Some (t, r) -> CbeTime.is_zero t = false ->
+  CbeTime.time_ok t = true.
+Proof. exact CbeTimeProofs.cbe_decode_time_ok. Qed.
+Print Assumptions C01_time_decoded_is_in_domain.
+
+Theorem C01_time_decoded_survives_reencoding :
+  forall b t r r', bytes_wf b -> CbeTime.cbe_decode_time b = Some (t, r) -> CbeTime.is_zero t = false ->
+  CbeTime.cbe_decode_time (CbeTime.cbe_encode_time t ++ r') = Some (CbeTime.canon t, r').
+Proof. exact CbeTimeProofs.cbe_time_reencode. Qed.
+Print Assumptions C01_time_decoded_survives_reencoding.
+
+(* ... but NOT to the same bytes: the decoder accepts encodings the encoder never writes (upper year
+   bits padded with empty ULEB128 groups, a larger sub-second magnitude than needed, UTC spelled as
+   the area "Z" / as offset 0 / as an alias, the four ignored bits above a UTC offset, area names and
+   "Local" written in full) — see the [noncanonical_*] examples in Proofs/CbeTimeProofs.v; relevant to C22 *)
+Theorem C01_time_canonical_refuted : ~ CbeTimeProofs.cbe_time_canonical_full.
+Proof. exact CbeTimeProofs.cbe_time_canonical_refuted. Qed.
+Print Assumptions C01_time_canonical_refuted.
+
+(* outside the guards the encoder still writes and the value changes silently *)
+Theorem C01_time_unguarded_refuted : ~ CbeTimeProofs.cbe_time_roundtrip_unguarded.
+Proof. exact CbeTimeProofs.cbe_time_roundtrip_unguarded_refuted. Qed.
+Print Assumptions C01_time_unguarded_refuted.
+
+(* the year guard: 2147485648-01-01 comes back as -2147481648-01-01 (open finding, dependency) *)
+Theorem C01_time_year_window_refuted :
+  CbeTimeProofs.silently_changed (CbeTime.new_date 2147485648 1 1) (CbeTime.new_date (-2147481648) 1 1).
+Proof. exact CbeTimeProofs.year_above_window_refuted. Qed.
+Print Assumptions C01_time_year_window_refuted.
+
+(* the nanosecond guard: 2 * 10^9 ns is written as 2000 ms into a 10-bit field *)
+Theorem C01_time_nanosecond_refuted :
+  CbeTimeProofs.silently_changed (CbeTimeProofs.with_nano (CbeTime.new_time 1 2 3 0 CbeTime.tz_utc) 2000000000)
+                                 (CbeTime.new_time 1 2 3 976000000 CbeTime.tz_utc).
+Proof. exact CbeTimeProofs.nanosecond_overflow_refuted. Qed.
+Print Assumptions C01_time_nanosecond_refuted.
+
+(* a field wider than its bit field: hour 37 comes back as hour 5 *)
+Theorem C01_time_field_width_refuted :
+  CbeTimeProofs.silently_changed (CbeTime.new_time 37 0 0 0 CbeTime.tz_utc) (CbeTime.new_time 5 0 0 0 CbeTime.tz_utc).
+Proof. exact CbeTimeProofs.hour_overflow_refuted. Qed.
+Print Assumptions C01_time_field_width_refuted.
+
+(* the zero value is written as null, and 2000-00-00 is read as the zero value *)
+Theorem C01_time_zero_value_refuted :
+  CbeTime.cbe_encode_time (CbeTime.zero_time CbeTime.KDate) = [Gen.CbeConsts.cbeTypeNull] /\
+  CbeTime.cbe_encode_time (CbeTime.zero_time CbeTime.KTime) = [Gen.CbeConsts.cbeTypeNull] /\
+  CbeTime.cbe_encode_time (CbeTime.zero_time CbeTime.KTimestamp) = [Gen.CbeConsts.cbeTypeNull] /\
+  CbeTime.cbe_decode_time [Gen.CbeConsts.cbeTypeNull] = None.
+Proof. exact CbeTimeProofs.zero_value_written_as_null. Qed.
+Print Assumptions C01_time_zero_value_refuted.
+
+(* Non-vacuity: a timestamp with nanoseconds (leap second, magnitude 3) in an area/location zone whose
+   name the library abbreviates (example_short = "M/Argentina/Buenos_Aires") satisfies the hypothesis; its 35 bytes are the ones the real encoder writes *)
+Example C01_time_example :
+  CbeTime.time_ok CbeTimeProofs.example_time = true /\
+  CbeTime.g_nano CbeTimeProofs.example_time = 123456789 /\
+  CbeTime.z_kind (CbeTime.g_zone CbeTimeProofs.example_time) = CbeTime.ZArea /\
+  CbeTime.z_short (CbeTime.g_zone CbeTimeProofs.example_time) = CbeTimeProofs.example_short /\
+  CbeTime.canon CbeTimeProofs.example_time = CbeTimeProofs.example_time /\
+  CbeTime.cbe_encode_time CbeTimeProofs.example_time =
+    [124; 175; 104; 222; 58; 248; 253; 22; 203; 0; 48] ++ CbeTimeProofs.example_short.
+Proof. exact CbeTimeProofs.example_time_ok. Qed.
